@@ -166,7 +166,7 @@ impl<'s, 'a, 'b> Sampler<'s, 'a, 'b> {
     self.fuel = self.fuel.saturating_sub(1);
     // out of budget: prefer a non-composite alternative
     let idx = if self.fuel == 0 || depth == 0 {
-      t.0.iter().position(|x| !matches!(x.t2, Ty2::Arr(_) | Ty2::Map(_))).unwrap_or(0)
+      t.0.iter().position(|x| !matches!(x.t2, Ty2::Arr(_) | Ty2::Map(_) | Ty2::Tag { .. })).unwrap_or(0)
     } else {
       self.t.below(t.0.len())
     };
@@ -418,9 +418,10 @@ impl<'s, 'a, 'b> Sampler<'s, 'a, 'b> {
     }
   }
 
-  fn count(&mut self, occ: &Option<Occ>) -> u64 {
+  fn count(&mut self, occ: &Option<Occ>, depth: usize) -> u64 {
     let (min, max) = occ_bounds(occ);
-    if self.fuel == 0 {
+    // out of budget or at the depth bound: the minimum, so that documents stay shallow
+    if self.fuel == 0 || depth == 0 {
       return min.min(3);
     }
     let hi = max.unwrap_or(min + 2).min(min + 2);
@@ -439,7 +440,7 @@ impl<'s, 'a, 'b> Sampler<'s, 'a, 'b> {
   }
 
   fn seq_entry(&mut self, e: &Ent, env: usize, depth: usize, out: &mut Vec<CVal>) {
-    let n = self.count(&e.occ);
+    let n = self.count(&e.occ, depth);
     for _ in 0..n {
       if out.len() > 12 {
         return;
@@ -520,7 +521,7 @@ impl<'s, 'a, 'b> Sampler<'s, 'a, 'b> {
   }
 
   fn map_entry(&mut self, e: &Ent, env: usize, depth: usize, out: &mut Vec<(CVal, CVal)>) {
-    let n = self.count(&e.occ);
+    let n = self.count(&e.occ, depth);
     for _ in 0..n {
       if out.len() > 7 {
         return;
